@@ -472,7 +472,7 @@ func TestVF_C13(t *testing.T) {
 		"names/values over the %d-piece adversarial alphabet %q restricted to Prometheus UTF-8 validation (names non-empty); "+
 		"bounded-exhaustive blocks: P name+value <= 3 pieces x 2 blocks x 2 compressions (thorough: also = 4 pieces x 1); EP one matcher name+value <= 3 pieces x 4 types x 2 compressions, two matchers of <= 3 pieces in total x 16 type pairs (quick: over the 12 separator-heavy pieces); M name+value <= 3 (quick) / <= 4 (thorough) pieces x 4 types; S 20000 refs x 2 blocks; "+
 		"then random items up to 7 pieces, boundary-shift sibling families, and cross-kind siblings (the matcher text of every small EP item cut into postings name/value at every position); oracle: the REAL key function is evaluated for every item and keys are grouped per key space (index caches: P+EP+S together; matchers cache) - a second different, constructible item on a key is a violation, replayed end to end through RemoteIndexCache/InMemoryIndexCache/LruMatchersCache; "+
-		"distinct non-trivial = item containing at least one of %q. Concurrent part (cases after the blocks): rounds of 4..16 goroutines x 4..12 lookups on a cold, small (1..4 entries) real LruMatchersCache (default options; also all-cacheable and the noop cache) with groups of 2..12 DIFFERENT matchers sharing a value / a name / a type / name+value, real conversion inside newItem slowed by PRNG Gosched/us delays, GOMAXPROCS cycled 1/2/4/16; every returned matcher must have exactly the requested name, type and value; non-trivial = a lookup started while another conversion was in flight; signature = cache mode + order of conversions", len(pieces), pieces, vfc13Separators))
+		"then long items around length-encoding boundaries (name/value lengths 9/10, 99/100, 127/128, 255/256/257, 65535/65536; the same text cut into (name,value) at neighbouring positions, e.g. (n, X+v) vs (n+X, v)) for the postings, expanded-postings and matchers keys; distinct non-trivial = item containing at least one of %q. Concurrent part (cases after the blocks): rounds of 4..16 goroutines x 4..12 lookups on a cold, small (1..4 entries) real LruMatchersCache (default options; also all-cacheable and the noop cache) with groups of 2..12 DIFFERENT matchers sharing a value / a name / a type / name+value, real conversion inside newItem slowed by PRNG Gosched/us delays, GOMAXPROCS cycled 1/2/4/16; every returned matcher must have exactly the requested name, type and value; non-trivial = a lookup started while another conversion was in flight; signature = cache mode + order of conversions. Concurrent index-cache part: rounds of 4..16 goroutines on one real RemoteIndexCache (fake memcached whose GetMulti yields/sleeps by PRNG) or InMemoryIndexCache, Store*/FetchMulti* for postings, expanded postings and series over overlapping item sets in different orders; stored values are derived from the item and every hit must carry exactly its own item's value", len(pieces), pieces, vfc13Separators))
 	r.Assume("blake2b-256 digests of different pre-images differ (a digest collision would be reported as a key collision of class other-collision)")
 	r.Assume("collisions are only counted between items that can exist: valid UTF-8 names/values, regexp matchers that compile")
 	mo := vfc13NewMon(t, r)
@@ -628,8 +628,30 @@ func TestVF_C13(t *testing.T) {
 				}
 			}
 		},
+		// 6: long strings around length-encoding boundaries: one text W = "n"+X+"v" with len(X) at 9/10, 99/100,
+		// 127/128, 255/256/257, 65535/65536 (decimal digits, varint, one byte, two bytes), cut into (name, value) at
+		// the positions 1, 2, L-1, L, L+1, L+2 - among them (name, X+value) and (name+X, value) - for every key function
+		func(c int) {
+			for _, l := range []int{9, 10, 99, 100, 127, 128, 255, 256, 257, 65535, 65536} {
+				for _, fill := range []string{"x", "1", ":"} {
+					w := "n" + strings.Repeat(fill, l) + "v"
+					for _, p := range []int{1, 2, l - 1, l, l + 1, l + 2} {
+						if p < 1 || p > len(w) {
+							continue
+						}
+						name, value := w[:p], w[p:]
+						mo.observe(c, vfc13Item{Kind: "P", Comp: compressionSchemeStreamedSnappy, Name: name, Value: value})
+						for _, mt := range vfc13Types {
+							mo.observe(c, vfc13Item{Kind: "EP", Comp: compressionSchemeStreamedSnappy, Ms: []vfc13M{{T: mt, N: name, V: value}}})
+							mo.observe(c, vfc13Item{Kind: "M", Ms: []vfc13M{{T: mt, N: name, V: value}}})
+						}
+						r.Count("length_boundary_items", 9)
+					}
+				}
+			}
+		},
 	}
-	names := []string{"exhaustive:P", "exhaustive:EP", "exhaustive:M", "exhaustive:S", "random+siblings", "cross-kind-siblings"}
+	names := []string{"exhaustive:P", "exhaustive:EP", "exhaustive:M", "exhaustive:S", "random+siblings", "cross-kind-siblings", "length-boundaries"}
 	for c, blk := range blocks {
 		if !r.Want(c) {
 			continue
@@ -639,7 +661,8 @@ func TestVF_C13(t *testing.T) {
 		r.Count("distinct_keys:"+names[c], len(mo.index)+len(mo.matchers)-before)
 	}
 	// concurrent part: the real matchers caches under overlapping lookups of different matchers
-	vfc13ConcurrentPart(t, r, len(blocks), r.N(400, 8000))
+	vfc13ConcurrentPart(t, r, len(blocks), r.N(300, 8000))
+	vfc13ConcurrentIndexPart(t, r, len(blocks)+r.N(300, 8000), r.N(120, 4000))
 	r.Count("items_skipped_invalid", mo.skipped)
 	r.Sample(map[string]any{"P": vfc13Item{Kind: "P", Name: "a:", Value: "b"}, "key": func() string {
 		k, _ := vfc13Key(vfc13Item{Kind: "P", Name: "a:", Value: "b"})
